@@ -4,4 +4,5 @@ package main
 
 import (
 	_ "verifharness/props/c10"
+	_ "verifharness/props/c12"
 )
